@@ -66,6 +66,12 @@ Schema(
             "def_pos_start": "any", "def_pos_end": "any"},
 )
 Schema("PlainName", fields={"multi_metamodel_support": "bool"})
+Schema(
+    "GeneratorDesc",
+    fields={"language": "str", "target": "str", "description": "any", "generator": "any",
+            "custom_args": "list[obj:GeneratorParam]|none", "project_name": "any", "project_version": "any"},
+)
+Schema("GeneratorParam", fields={"name": "str", "mandatory": "bool"})
 
 # attribute names that have one type wherever textX uses them (naming invariants
 # of the code base; assumed when an object's class has no schema of its own)
